@@ -487,7 +487,11 @@ def rmw_findings(m, body, tag):
                 else:
                     # direct section: the mutating call's value operands
                     if ev2.frame.body.id == body.id and ev2.term is not None:
+                        topf = ex.top_frame(body)
                         for a2 in ev2.term['args'][1:]:
+                            av = ex.absvals(topf, a2)
+                            if key2 and av and set(av) <= set(key2):
+                                continue      # the key itself: the *data* written must depend on the earlier read
                             calls, params = backward_slice(body, a2)
                             if calls & res_calls:
                                 dep = True
